@@ -95,6 +95,8 @@ def compare(go_text, model_text):
     mm = parse_monitors(model_text)
     diffs = []
     for k in FIELDS:
+        if k == "ja" and gm.get("ja") == "ud":
+            continue  # the harness could not decide within its time limit whether JoinAll spins: not judged
         if k == "rs" and gm.get("rs") == "na":
             if mm.get("rs") == "bad":
                 diffs.append("rs: the model's final worker count differs from the last decided SetWorkerCount target")
